@@ -200,6 +200,9 @@ class _NoTable(Exception):
     pass
 
 
+_SIDE = {"inf": "all infinite", "mix": "partly finite", "fin": "all finite"}
+
+
 def _label_by_cases(prog, sa, key: str, bparam: str):
     """finite-domain evaluation of the branching that stores the literal result field ``key``: for every assignment of
     (uncertainty level in 0..2, specify_target_noise, all-lower-infinite, all-upper-infinite, constraint absent) the label
@@ -210,15 +213,52 @@ def _label_by_cases(prog, sa, key: str, bparam: str):
     from ..terms import const_num
 
     def bounds_atom(e):
-        """-> ('lb'|'ub', all_infinite: bool polarity) for np.all(np.isinf(b.lower_bounds)) and its spellings"""
-        c = canon(e)
-        for side, attr in (("lb", "lower_bounds"), ("ub", "upper_bounds")):
-            b = f"{bparam}.{attr}"
-            if c in (f"np.all(np.isinf({b}))", f"np.isinf({b}).all()", f"np.all(~np.isfinite({b}))", f"np.all(np.logical_not(np.isfinite({b})))", f"(not np.any(np.isfinite({b})))", f"np.all(np.abs({b}) == np.inf)"):
-                return side, True
-            if c in (f"np.any(np.isfinite({b}))", f"np.isfinite({b}).any()", f"np.any(~np.isinf({b}))", f"(not np.all(np.isinf({b})))"):
-                return side, False
-        return None
+        """-> evaluator(env) for a quantified finiteness predicate over the lower / upper hard bounds (a side is 'inf' =
+        all infinite, 'mix' = some finite, 'fin' = all finite), also over both stacked: np.isfinite([lb, ub]).any()"""
+        inner, red = None, None
+        if isinstance(e, ast.Call) and isinstance(e.func, ast.Attribute) and e.func.attr in ("any", "all") and not e.args:
+            inner, red = e.func.value, e.func.attr
+        elif isinstance(e, ast.Call) and canon(e.func) in ("np.any", "np.all", "any", "all") and len(e.args) == 1 and not e.keywords:
+            inner, red = e.args[0], canon(e.func).split(".")[-1]
+        if inner is None:
+            return None
+        neg = False
+        while isinstance(inner, ast.UnaryOp) and isinstance(inner.op, (ast.Invert, ast.Not)):
+            inner, neg = inner.operand, not neg
+        if isinstance(inner, ast.Call) and canon(inner.func) == "np.logical_not" and len(inner.args) == 1:
+            inner, neg = inner.args[0], not neg
+        if not (isinstance(inner, ast.Call) and canon(inner.func) in ("np.isfinite", "np.isinf") and len(inner.args) == 1):
+            return None
+        finite = (canon(inner.func) == "np.isfinite") != neg  # the element predicate is 'finite' (True) or 'infinite'
+        arg = inner.args[0]
+        parts = None
+        if isinstance(arg, (ast.List, ast.Tuple)):
+            parts = arg.elts
+        elif isinstance(arg, ast.Call) and canon(arg.func) in ("np.concatenate", "np.vstack", "np.hstack", "np.stack", "np.array", "np.asarray", "np.row_stack") and arg.args and isinstance(arg.args[0], (ast.List, ast.Tuple)):
+            parts = arg.args[0].elts
+        else:
+            parts = [arg]
+        sides = []
+        for p_ in parts:
+            c_ = canon(p_)
+            if c_ == f"{bparam}.lower_bounds":
+                sides.append("lb")
+            elif c_ == f"{bparam}.upper_bounds":
+                sides.append("ub")
+            else:
+                return None
+
+        def run_(env):
+            def one(side):
+                v = env[side]  # 'inf' | 'mix' | 'fin'
+                if red == "any":
+                    return (v != "inf") if finite else (v != "fin")
+                return (v == "fin") if finite else (v == "inf")
+
+            vals = [one(s_) for s_ in sides]
+            return any(vals) if red == "any" else all(vals)
+
+        return run_
 
     def ev(e, env):
         if isinstance(e, ast.BoolOp):
@@ -230,7 +270,7 @@ def _label_by_cases(prog, sa, key: str, bparam: str):
             return ev(e.args[0], env)
         ba = bounds_atom(e)
         if ba is not None:
-            return env[ba[0]] == ba[1]
+            return ba(env)
         c = canon(e)
         if c == "OPT[specify_target_noise]":
             return env["S"]
@@ -277,7 +317,7 @@ def _label_by_cases(prog, sa, key: str, bparam: str):
         return cur
 
     out = {}
-    for L, S, lb, ub, C in itertools.product((0, 1, 2), (False, True), (False, True), (False, True), (False, True)):
+    for L, S, lb, ub, C in itertools.product((0, 1, 2), (False, True), ("inf", "mix", "fin"), ("inf", "mix", "fin"), (False, True)):
         env = {"L": L, "S": S, "lb": lb, "ub": ub, "C": C}
         out[(L, S, lb, ub, C)] = run(sa.node.body, env, None)
     return out
@@ -514,11 +554,11 @@ def check(ctx):
     if not ok_pt and pt:
         try:
             tab = _label_by_cases(prog, sa, "problem_type", bparam)
-            bad = [(k, v) for k, v in tab.items() if v != ("non-box constraints" if not k[4] else ("unconstrained" if k[2] and k[3] else "bound constraints"))]
+            bad = [(k, v) for k, v in tab.items() if v != ("non-box constraints" if not k[4] else ("unconstrained" if k[2] == "inf" and k[3] == "inf" else "bound constraints"))]
             ok_pt = not bad
             if bad:
                 k_, v_ = bad[0]
-                why_pt = f": with lower bounds {'all infinite' if k_[2] else 'partly finite'}, upper bounds {'all infinite' if k_[3] else 'partly finite'} and {'no constraint' if k_[4] else 'a constraint'} the label is {v_!r}"
+                why_pt = f": with lower bounds {_SIDE[k_[2]]}, upper bounds {_SIDE[k_[3]]} and {'no constraint' if k_[4] else 'a constraint'} the label is {v_!r}"
         except _NoTable:
             pass
     ctx.check(bool(ok_pt), sa, pt[0][1] if pt else sa.node, "problem_type follows bounds/constraint presence", "problem_type no longer follows (all bounds infinite, constraint absent) / (constraint absent) / otherwise" + why_pt, construct="problem_type mapping")
